@@ -22,30 +22,38 @@ DataPool(M) == LET all == << Blank, Ins("DAT","F","#",1,"<",M-1), Ins("JMP","B",
 Limits(M) == IF AllLimits THEN (1..M) \X (1..M) ELSE {<<M,M>>, <<1,1>>, <<2,3>>, <<M,1>>, <<1,M>>}
 
 VARIABLE s
-Init == \E M \in Ms : \E lim \in Limits(M) : \E op \in Ops, mod \in Mods, am \in Modes, bm \in Modes :
-        \E a \in 0..M-1, b \in 0..M-1 : \E n1 \in DataPool(M), n2 \in DataPool(M) :
-           s = [M |-> M, RL |-> lim[1], WL |-> lim[2], pc |-> 1,
-                core |-> [i \in 0..M-1 |-> IF i = 1 THEN Ins(op, mod, am, a, bm, b)
-                                           ELSE IF i = 0 THEN n1 ELSE IF i = 2 THEN n2 ELSE Blank]]
-Next == UNCHANGED s
+\* two stages so that TLC's workers share the enumeration: Init picks (M, limits, opcode),
+\* Next fans out over modifier, modes, fields and neighbours.
+Init == \E M \in Ms : \E lim \in Limits(M) : \E op \in Ops :
+           s = [stage |-> 0, M |-> M, RL |-> lim[1], WL |-> lim[2], op |-> op]
+Next == /\ s.stage = 0
+        /\ \E mod \in Mods, am \in Modes, bm \in Modes : \E a \in 0..s.M-1, b \in 0..s.M-1 :
+           \E n1 \in DataPool(s.M), n2 \in DataPool(s.M) :
+             s' = [stage |-> 1, M |-> s.M, RL |-> s.RL, WL |-> s.WL, pc |-> 1,
+                   core |-> [i \in 0..s.M-1 |-> IF i = 1 THEN Ins(s.op, mod, am, a, bm, b)
+                                              ELSE IF i = 0 THEN n1 ELSE IF i = 2 THEN n2 ELSE Blank]]
 
-R  == ExecTask(s.core, s.pc, s)
-Changed == {a \in 0..s.M-1 : R.core[a] # s.core[a]}
-
-TypeOK == /\ DOMAIN R.core = 0..s.M-1
-          /\ \A a \in 0..s.M-1 : /\ R.core[a].op \in Ops /\ R.core[a].mod \in Mods
-                                 /\ R.core[a].am \in Modes /\ R.core[a].bm \in Modes
-                                 /\ R.core[a].a \in 0..s.M-1 /\ R.core[a].b \in 0..s.M-1
-          /\ Len(R.push) <= 2 /\ \A k \in 1..Len(R.push) : R.push[k] \in 0..s.M-1
-WriteBound == \A a \in Changed : CDist(a, s.pc, s.M) <= s.WL \div 2
-ReadBound  == \A k \in 1..Len(R.push) : \/ R.push[k] \in {(s.pc + 1) % s.M, (s.pc + 2) % s.M}
-                                        \/ CDist(R.push[k], s.pc, s.M) <= s.RL \div 2
-NoLimit    == (s.RL = s.M /\ s.WL = s.M) =>
-                 LET N == ExecTaskNoFold(s.core, s.pc, s.M) IN N.core = R.core /\ N.push = R.push
-EvCovers   == Changed \subseteq EvTouched(R.ev)
-EvValid    == \A k \in 1..Len(R.ev) : R.ev[k][2] \in 0..s.M-1
-DeathIffNoPush == (R.push = << >>) <=>
-                    (\/ s.core[s.pc].op = "DAT"
-                     \/ s.core[s.pc].op \in {"DIV","MOD"} /\ \E k \in 1..Len(R.ev) : R.ev[k][1] = "Term")
-SplOrder   == s.core[s.pc].op = "SPL" => Len(R.push) = 2 /\ R.push[1] = (s.pc + 1) % s.M
+WF(i, M) == i.op \in Ops /\ i.mod \in Mods /\ i.am \in Modes /\ i.bm \in Modes /\ i.a \in 0..M-1 /\ i.b \in 0..M-1
+Props(R) ==
+  LET M == s.M
+      Changed == {a \in 0..M-1 : R.core[a] # s.core[a]}
+  IN \* TypeOK
+     /\ DOMAIN R.core = 0..M-1
+     /\ \A a \in 0..M-1 : WF(R.core[a], M)
+     /\ Len(R.push) <= 2 /\ \A k \in 1..Len(R.push) : R.push[k] \in 0..M-1
+     \* WriteBound, ReadBound, NoLimit (C11)
+     /\ \A a \in Changed : CDist(a, s.pc, M) <= s.WL \div 2
+     /\ \A k \in 1..Len(R.push) : \/ R.push[k] \in {(s.pc + 1) % M, (s.pc + 2) % M}
+                                   \/ CDist(R.push[k], s.pc, M) <= s.RL \div 2
+     /\ (s.RL = M /\ s.WL = M) =>
+           LET N == ExecTaskNoFold(s.core, s.pc, M) IN N.core = R.core /\ N.push = R.push /\ N.ev = R.ev
+     \* EvCovers, EvValid (C15)
+     /\ Changed \subseteq EvTouched(R.ev)
+     /\ \A k \in 1..Len(R.ev) : R.ev[k][2] \in 0..M-1
+     \* DeathIffNoPush, SplOrder (C01/C02)
+     /\ (R.push = << >>) <=>
+            (\/ s.core[s.pc].op = "DAT"
+             \/ s.core[s.pc].op \in {"DIV","MOD"} /\ \E k \in 1..Len(R.ev) : R.ev[k][1] = "Term")
+     /\ s.core[s.pc].op = "SPL" => Len(R.push) = 2 /\ R.push[1] = (s.pc + 1) % M
+StepProps == s.stage = 1 => Props(ExecTask(s.core, s.pc, s))
 =============================================================================
